@@ -174,13 +174,21 @@ theorem kinv_execOp (s : St) (op : Op) (h : KInv s) : KInv (execOp s op).1 := by
   | getKey k => simp only [execOp]; split <;> exact h
   | getKeys => exact h
   | getKeysWithData => exact h
-  | resetRoutine k => exact kinv_resetKey s k h
-  | restartRoutine k => exact kinv_restartKey s k h
-  | resetAll =>
+  | resetRoutine k cs =>
+    simp only [execOp]
+    split
+    · exact kinv_resetKey s k h
+    · exact h
+  | restartRoutine k cs =>
+    simp only [execOp]
+    split
+    · exact kinv_restartKey s k h
+    · exact h
+  | resetAll cs =>
     simp only [execOp]
     rw [foldl_fst resetAllStep (fun s k => (resetKey s k).1) (fun _ _ => rfl)]
     exact foldl_inv _ kinv_resetKey _ _ h
-  | restartAll =>
+  | restartAll cs =>
     simp only [execOp]
     rw [foldl_fst restartAllStep (fun s k => (restartKey s k).1) (fun _ _ => rfl)]
     exact foldl_inv _ kinv_restartKey _ _ h
